@@ -286,6 +286,12 @@ def goal_behaviours(ctx, users, sess, topics, names=None, maxsubs=3, marks=False
     if marks:
         goals.update(MARK_GOALS)
     names = names or list(goals)
+    # a goal that speaks of users or sessions outside this population does not apply to it
+    import re as _re
+    def _applies(nm):
+        txt = goals[nm][0] + json.dumps(goals[nm][1])
+        return all(x in users for x in _re.findall(r'"(u\d+)"', txt)) and all(x in sess for x in _re.findall(r'"(s\d+)"', txt))
+    names = [nm for nm in names if _applies(nm)]
     consts = mc_consts(users, sess, topics, DEV_BUILT, ["-", "N", "JR", "JRS", "JRA", "JRASO"], ["-", "N", "JR", "JRS", "JRAS", "JRASO"],
                        ["NewGrp", "Sub", "Leave", "SetSelf", "SetOther", "DelSub", "DelTopic", "Unload"], [], maxsubs=maxsubs)
     consts_p2p = mc_consts(users, sess, topics, DEV_BUILT, ["-"], ["-"], ["P2P"], [], maxseq=3, maxsubs=maxsubs)
